@@ -212,9 +212,14 @@ type pending struct {
 }
 
 // interned labels (labels repeat across executions; expand runs under the explorer's lock)
-var labelPool = map[string]string{}
+var (
+	labelPool   = map[string]string{}
+	labelPoolMu sync.Mutex // several Explore calls may run concurrently (C23's driver)
+)
 
 func intern(s string) string {
+	labelPoolMu.Lock()
+	defer labelPoolMu.Unlock()
 	if v, ok := labelPool[s]; ok {
 		return v
 	}
